@@ -40,7 +40,8 @@ def covering(chk: Check, vectors: list[dict], n: int) -> list[dict]:
 
 
 def vec_key(v: dict) -> str:
-    return f"{v['wrap']}/{v['layout']}/x{v['mult']}/{v['imp']}" + (f"/{v['args']}" if v.get("args", "asis") != "asis" else "")
+    return (f"{v['wrap']}/{v['layout']}/x{v['mult']}/{v['imp']}" + (f"/{v['args']}" if v.get("args", "asis") != "asis" else "")
+            + (f"/{v['filter']}" if v.get("filter") else ""))
 
 
 def build_batches(chk: Check, *, codemods=None, seeds_per_codemod: int = 2, vectors_per_seed: int = 8, vectors=None,
@@ -76,6 +77,10 @@ def build_batches(chk: Check, *, codemods=None, seeds_per_codemod: int = 2, vect
                 vs = sorted(vs[:2], key=vec_key)
             else:
                 vs = covering(chk, vectors, extra_vectors if s.test.startswith("extra::") else vectors_per_seed)
+                if s.test.startswith("extra::"):
+                    # a hand-written probe also gets every argument-list / layout-of-the-statement variation that applies to it
+                    kinds = sorted({v.get("args") for v in vectors} - {"asis", None})
+                    vs = vs + [dict(BASE, args=k) for k in kinds if dict(BASE, args=k) not in vs]
             for v in vs:
                 added = [ln for ln in s.expected.split("\n") if seeds.is_import_line(ln) and ln.strip() and ln not in s.input.split("\n")]
                 text = variations.apply(s.input, v, added, s.expected)
@@ -103,6 +108,42 @@ def build_batches(chk: Check, *, codemods=None, seeds_per_codemod: int = 2, vect
         scenarios.append({"id": f"P-{cid}", "files": files, "steps": steps, "_codemod": cid, "_metas": metas})
     chk.coverage["variants_discarded_not_compiling"] = chk.coverage.get("variants_discarded_not_compiling", 0) + discarded
     return scenarios
+
+
+def build_line_filter_batches(chk: Check, *, multi_statement_only: bool = True, max_lines: int = 26) -> list[dict]:
+    """Per find-and-fix codemod two runs over copies of one two-site program, file number L carrying the line filter
+    `fL.py:L` (one run with the lines as excludes, one as includes): an edit that spans several statements must stay
+    consistent whichever of its lines the filter names."""
+    by = seeds.by_codemod()
+    out = []
+    for cid in sorted(by):
+        if not cid.startswith("pixee:"):
+            continue
+        cands = sorted((s for s in by[cid] if pyoracle.compiles(s.input) and s.expected != s.input), key=lambda s: (len(s.input), s.key))
+        if multi_statement_only:
+            cands = [s for s in cands if len(variations.changed_lines(s.input, s.expected)) >= 2 or s.input.count("\n") != s.expected.count("\n")]
+        if not cands:
+            continue
+        s = cands[0]
+        # two sites, each in a function of its own (its names are local to it)
+        head, body = variations._split(s.input)
+        ib = variations._indent(body)
+        text = "\n".join(head + ["", "", "def site_a(arg=None):"] + ib + ["", "", "def site_b(arg=None):"] + ib) + "\n"
+        if not body or not pyoracle.compiles(text):
+            text = variations.multiply(s.input, 2)
+        if not pyoracle.compiles(text):
+            text = s.input
+        n = min(len(text.split("\n")), max_lines)
+        for mode in ("exclude", "include"):
+            files, metas, pats = {}, {}, []
+            for ln in range(1, n + 1):
+                rel = f"f{ln:02d}.py"
+                files[rel] = text
+                metas[rel] = {"seed": s.key, "vector": dict(BASE, filter=f"{mode}:{ln}"), "seed_input": s.input, "seed_expected": s.expected}
+                pats.append(f"{rel}:{ln}")
+            argv = ["{dir}", "--output", "{out}", "--codemod-include", cid, f"--path-{mode}", ",".join(pats)]
+            out.append({"id": f"LF-{mode}-{cid}", "files": files, "steps": [{"argv": argv, "observe": True}], "_codemod": cid, "_metas": metas})
+    return out
 
 
 def build_sast(chk: Check, *, second_run: bool = False, step_extra: dict | None = None, max_per_codemod: int = 2) -> list[dict]:
